@@ -253,7 +253,7 @@ func normCfg(c *config.PikeConfig) string {
 }
 
 func c17(r *hx.Run) {
-	r.Rule = "generated configurations (1-3 caches/upstreams/compress profiles, 1-4 locations, 1-3 servers, optional fields set or unset; names and free-text values drawn from strings that need YAML quoting). (1) Validate must accept each valid one and reject each of 33 single injected defects (every dangling reference, at first and last position, and every malformed documented field); any accepted configuration must pass the independent closure predicate. (2) Write then Read through the file client must return the same configuration (modulo version, yaml text, nil vs empty). (3) accepted configurations are applied to a freshly started real pike process and every server is probed: no answer may be pike's own 'cache dispatcher / upstream not found', nor 'location not found' where the reference router finds one. Non-trivial/distinct = (defect kind) / round-tripped configuration containing a nasty string / applied configuration."
+	r.Rule = "generated configurations (1-3 caches/upstreams/compress profiles, 1-4 locations, 1-3 servers, optional fields set or unset; names and free-text values drawn from strings that need YAML quoting). (1) Validate must accept each valid one and reject each of 33 single injected defects (every dangling reference, at first and last position, and every malformed documented field); any accepted configuration must pass the independent closure predicate. (2) Write then Read through the file client must return the same configuration (modulo version, yaml text, nil vs empty). (3) accepted configurations are applied to a freshly started real pike process and every server is probed: no answer may be pike's own 'cache dispatcher / upstream not found', nor 'location not found' where the reference router finds one; names with leading/trailing white space included. (4) two accepted configurations saved to a running instance in quick succession, the second one (which renames the cache, location and upstream the server refers to) while the first is still being applied: once settled, the server resolves everything. Non-trivial/distinct = (defect kind) / round-tripped configuration containing a nasty string / applied configuration."
 	r.Assume = []string{"documented field kinds only; duplicate names and sub-second durations are accepted by pike and not judged"}
 	rnd := rand.New(rand.NewSource(r.Seed))
 	origins := []string{"http://127.0.0.1:3001", "http://127.0.0.1:3002"}
@@ -337,6 +337,13 @@ func c17(r *hx.Run) {
 	for i := range seeds {
 		seeds[i] = rnd.Int63()
 	}
+	wg.Add(1)
+	go func() {
+		defer wg.Done()
+		for k := 0; k < r.Pick(1, 6); k++ {
+			c17LiveSaves(r, bin, k)
+		}
+	}()
 	for i := 0; i < na && !r.TooMany(); i++ {
 		wg.Add(1)
 		sem <- struct{}{}
@@ -347,6 +354,86 @@ func c17(r *hx.Run) {
 		}(i)
 	}
 	wg.Wait()
+}
+
+// c17LiveSaves: accepted configurations saved to a running instance in quick succession - the second one
+// while the first is still being applied (it adds an upstream whose health endpoint is slow) and renaming
+// everything the server refers to. Once the instance has settled, the last accepted configuration is the
+// one applied: the server resolves its cache, location and upstream.
+func c17LiveSaves(r *hx.Run, bin string, k int) {
+	farm := hx.NewFarm(2, nil)
+	defer farm.Close()
+	farm.SetScript(func(f *hx.Fetch) *hx.Reply {
+		return &hx.Reply{Status: 200, Header: [][2]string{{"Cache-Control", "max-age=60"}}, Body: hx.IdentBody(f, 20, "text")}
+	})
+	farm.Origins[1].PingDelay.Store(int64((400 + 200*time.Duration(k%3)) * time.Millisecond))
+	addr := srvAddr(hx.FreePorts(1)[0])
+	mk := func(gen string, slow bool) *config.PikeConfig {
+		cfg := &config.PikeConfig{
+			Caches:    []config.CacheConfig{{Name: "cache" + gen, Size: 100, HitForPass: "5m"}},
+			Upstreams: []config.UpstreamConfig{{Name: "up" + gen, Servers: []config.UpstreamServerConfig{{Addr: farm.Origins[0].URL()}}}},
+			Locations: []config.LocationConfig{{Name: "loc" + gen, Upstream: "up" + gen}},
+			Servers:   []config.ServerConfig{{Addr: addr, Locations: []string{"loc" + gen}, Cache: "cache" + gen}},
+		}
+		if slow {
+			cfg.Upstreams = append(cfg.Upstreams, config.UpstreamConfig{Name: "upslow", HealthCheck: "/ping", Servers: []config.UpstreamServerConfig{{Addr: farm.Origins[1].URL()}}})
+		}
+		return cfg
+	}
+	cfgs := []*config.PikeConfig{mk("a", false), mk("a", true), mk("b", false)}
+	for _, c := range cfgs {
+		if err := c.Validate(); err != nil {
+			r.Inconclusive("live-save configuration not accepted: " + err.Error())
+			return
+		}
+	}
+	p, err := hx.NewPike(bin, filepath.Join(r.Scratch, fmt.Sprintf("c17-live-%d", k)), cfgs[0], 0)
+	if err != nil {
+		r.Inconclusive("cannot prepare pike")
+		return
+	}
+	defer p.Kill()
+	if _, err := p.Start([]string{addr}, 30*time.Second); err != nil {
+		r.Inconclusive("pike does not start: " + err.Error())
+		return
+	}
+	lp := &c16Proc{pike: p}
+	pad := 0
+	begun := p.CountEvent("update.begin")
+	if err := lp.save(cfgs[1], "inplace_write", &pad); err != nil {
+		r.Inconclusive("cannot write the configuration: " + err.Error())
+		return
+	}
+	if !hx.WaitUntil(10*time.Second, func() bool { return p.CountEvent("update.begin") > begun }) {
+		r.Inconclusive("the save did not start an update")
+		return
+	}
+	time.Sleep(time.Duration(150+100*(k%3)) * time.Millisecond)
+	overlapped := p.CountEvent("update.done") < p.CountEvent("update.begin")
+	before := p.CountEvent("update.done")
+	if err := lp.save(cfgs[2], "inplace_write", &pad); err != nil {
+		r.Inconclusive("cannot write the configuration: " + err.Error())
+		return
+	}
+	if err := lp.waitApplied(before, "inplace_write"); err != nil {
+		r.Inconclusive(err.Error())
+		return
+	}
+	time.Sleep(300 * time.Millisecond)
+	if overlapped {
+		r.Add("live_saves_while_an_update_was_being_applied", 1)
+	}
+	cl := hx.NewClient(nil)
+	for n := 0; n < 4; n++ {
+		res := cl.Do(hx.Req{Addr: addr, Host: "aa.example", URI: fmt.Sprintf("/live/%d/%d", k, n), Timeout: 10 * time.Second})
+		r.Eval(1)
+		r.Add("live_save_probes", 1)
+		if res.Err != nil || res.Status != 200 {
+			r.Violate("accepted_configuration_unresolved", map[string]string{"mode": "saved_while_previous_save_is_applied"}, fmt.Sprintf("after two accepted configurations were saved in quick succession the server answers %d %.120s (err %v)", res.Status, res.Raw, res.Err), res.Brief(), map[string]interface{}{"saved_first": cfgs[1], "saved_last": cfgs[2]})
+			return
+		}
+	}
+	r.Distinct(fmt.Sprintf("live_saves:%d", k))
 }
 
 func c17Applied(r *hx.Run, bin string, i int, rnd *rand.Rand) {
